@@ -91,7 +91,7 @@ def minimise(exe, env, plan, sig, trace, budget=45):
     # 1. simplify argument kinds, content mode, length (schedule regenerated from the pool config)
     cands = []
     for i, a in enumerate(best["args"]):
-        if a.get("kind") in ("masked", "readonly", "alias", "unmasked"):
+        if a.get("kind") in ("masked", "readonly", "alias", "unmasked", "strided"):
             cands.append(("kind", i))
     cands.append(("mode", None))
     cands += [("n", 201), ("n", 221), ("n", 301)]
